@@ -18,7 +18,7 @@ class C18(Prop):
     rule = ("random feature / price tables on business days, calendar days or hourly session bars (missing values, differing index ranges, "
             "feature rows on dates absent from the price table), window 1..30, strides, transformers none / z-score / "
             "yeo-johnson, clip values up to 5, spreads, the NYSE calendar and, in a third of the cases, LSE / JPX / XHKG / EUREX / CME_Equity / 24-7 (holidays inside the span), start / end "
-            "bounds, a rate series, folds whose episodes start in the middle of the data; the whole episode is stepped and every observation, quote, rate and timestep is "
+            "bounds, a rate series, the stride given as a numpy integer scalar in 30% of the cases, folds whose episodes start in the middle of the data; the whole episode is stepped and every observation, quote, rate and timestep is "
             "checked against the published tables. Non-trivial = window > 1 with a stride, or missing values in X, or "
             "a holiday inside the span, or X and Y indices differ; distinct = distinct cases")
     nontrivial_tags = {"stride", "missing", "holiday", "index-mismatch", "window>1"}
@@ -36,6 +36,8 @@ class C18(Prop):
             c["x_offset"] = 0
             c["n"] = rng.randint(60, 160)
             c["window"] = rng.choice([1, 2, 3, 5, 6, 10, 20])
+        if rng.random() < 0.3:
+            c["np_ints"] = rng.choice([1, 2])
         if rng.random() < 0.35:
             c["calendar"] = rng.choice(["LSE", "JPX", "XHKG", "EUREX", "24/7", "CME_Equity"])
         if rng.random() < 0.45:
@@ -74,6 +76,7 @@ class C18(Prop):
             hol_ = set(pd.Timestamp(h) for h in pandas_market_calendars.get_calendar(calname).holidays().holidays)
             days_ = [d for d in pd.bdate_range(first, periods=n // 7 + 3) if d not in hol_]
             idx = pd.DatetimeIndex([d + pd.Timedelta(hours=h) for d in days_ for h in range(10, 17)])[:n]
+            n = len(idx)   # a calendar with many holidays leaves fewer session days than asked for
             r.tags.add("intraday")
         xidx = idx
         if case["x_offset"]:
@@ -108,10 +111,17 @@ class C18(Prop):
                     kw["start"] = inside[0]
                     kw.pop("end", None)
                 r.tags.add("range-edge-on-holiday")
+        # the form of the integer options: Python ints, or numpy integer scalars (np.arange / rng.integers / a config table)
+        w_arg, stride_arg = w, stride
+        if case.get("np_ints"):
+            stride_arg = None if stride is None else (np.int64(stride) if case["np_ints"] == 1 else np.int32(stride))
+            # (a numpy integer *window* is refused loudly by the library - deque(maxlen=...) wants an int - so only the
+            # stride takes that form)
+            r.tags.add("numpy-integer-options")
         with warnings.catch_warnings():
             warnings.simplefilter("ignore")
             try:
-                env = TradingEnvXY(X, Y, transformer=case["transformer"], window=w, stride=stride, clip=case["clip"],
+                env = TradingEnvXY(X, Y, transformer=case["transformer"], window=w_arg, stride=stride_arg, clip=case["clip"],
                                    spread=case["spread"], rate=rate, steps_delay=case["delay"], calendar=calname, **kw)
             except Exception as e:  # noqa  (e.g. not enough data for the window: outside the property)
                 r.skipped = f"construction refused: {type(e).__name__}"
@@ -128,7 +138,7 @@ class C18(Prop):
                 folds = {"training-set": [ts0[0], ts0[a - 1]], "test-set": [ts0[a], ts0[-1]]}
                 with warnings.catch_warnings():
                     warnings.simplefilter("ignore")
-                    env = TradingEnvXY(X, Y, transformer=case["transformer"], window=w, stride=stride, clip=case["clip"],
+                    env = TradingEnvXY(X, Y, transformer=case["transformer"], window=w_arg, stride=stride_arg, clip=case["clip"],
                                        spread=case["spread"], rate=rate, steps_delay=case["delay"], folds=folds, calendar=calname, **kw)
                 fold2 = "test-set"
                 r.tags.add("mid-data-fold")
@@ -226,22 +236,24 @@ class C18(Prop):
                     break
                 k += 1
         # ---- the model's queue / thinning on the rows of the published table (what the State is fed)
-        first_t = pd.Timestamp(steps[0]) if steps else None
-        if first_t is not None:
+        starts = [(pd.Timestamp(steps[0]), None)] if steps else []
+        if fold2 is not None:
+            starts.append((pd.Timestamp(folds[fold2][0]), fold2))
+        for first_t, fold_name in starts:
+            if fold_name is not None:
+                r.op(f"window {w} {'none' if not stride else stride}")   # a fresh queue for the second feed
             fed = EX.loc[:first_t]
             horizon = None if w == 1 else first_t - pd.Timedelta(days=3 + 2 * w)
             rows_fed = fed if w == 1 else fed.loc[fed.index[fed.index >= horizon][0]:] if len(fed.index[fed.index >= horizon]) else fed
             if w == 1:
                 rows_fed = fed.iloc[-1:]
             qrows = [[F(float(v)) for v in row] for row in rows_fed.values.tolist()]
-            exp_last = None
             for row in qrows:
-                window_rows = None
                 r.op("obs " + " ".join(fr(v) for v in row), None)
             # expected final observation = what reset returned
             with warnings.catch_warnings():
                 warnings.simplefilter("ignore")
-                o0 = env.reset()
+                o0 = env.reset() if fold_name is None else env.reset(fold_name)
             if r.lines and r.lines[-1][0].startswith("obs "):
                 l, _, _ = r.lines[-1]
                 r.lines[-1] = (l, ";".join(",".join(fr(F(float(v))) for v in row) for row in o0.tolist()), 0)
